@@ -423,10 +423,12 @@ func seqBoundaries(blk []byte, maxSeq int) []int {
 			}
 			out = append(out, p)
 		}
-		if seq++; seq == maxSeq {
-			// jump to the tail: the last parts matter too (end-of-block rules)
-			break
-		}
+		seq++
+	}
+	// the first maxSeq sequences and the last three (the end of the last match sequence is where
+	// the final literals start: its room check is a boundary of its own)
+	if len(out) > 4*maxSeq+12 {
+		out = append(out[:4*maxSeq:4*maxSeq], out[len(out)-12:]...)
 	}
 	return out
 }
